@@ -19,7 +19,13 @@ struct State {
   std::string caseId = "none";
   unsigned int callNo = 0;
   CSState C;
+  std::ostream *out = &std::cout;
+  std::istream *in = &std::cin;
+  std::string tag;       // distinguishes temporary files of concurrent interpreters
   std::map<std::string, std::string> luafiles;
+#ifdef VERIF_WITH_LUA
+  std::unique_ptr<std::ofstream> luaOut;
+#endif
   void fresh(const std::string &id) {
     C.fresh();
     m.reset(new Model());
@@ -31,7 +37,7 @@ struct State {
 };
 
 static void emit(State &s, const std::string &name, const std::string &body) {
-  std::cout << s.caseId << "." << s.callNo << " " << name << " " << body << "\n";
+  (*s.out) << s.caseId << "." << s.callNo << " " << name << " " << body << "\n";
   s.callNo++;
 }
 
@@ -287,16 +293,22 @@ static VectorNd readVec(Toks &t) {
   return v;
 }
 
-int main() {
-  State s;
-  s.fresh("none");
-  std::string line;
-  while (std::getline(std::cin, line)) {
+// one interpreter = one State (model, constraint set, files); lines are fed one at a time so that
+// several interpreters can be interleaved on one thread or run on several threads
+static void process_line(State &s, const std::string &line) {
+#ifdef VERIF_WITH_LUA
+  if (s.luaOut) {
+    if (line == "luaend") { s.luaOut->close(); s.luaOut.reset(); }
+    else (*s.luaOut) << line << "\n";
+    return;
+  }
+#endif
+
     Toks t = tokenize(line);
-    if (t.l.empty()) continue;
+    if (t.l.empty()) return;
     std::string cmd = t.next();
-    if (cmd[0] == '#') continue;
-    if (cmd == "@model") continue;          // executed by the Lean driver only
+    if (cmd[0] == '#') return;
+    if (cmd == "@model") return;          // executed by the Lean driver only
     if (cmd == "@impl") cmd = t.next();     // executed by this driver only
     try {
       if (cmd == "case") { s.fresh(t.next()); }
@@ -308,7 +320,7 @@ int main() {
         Body b = parseBody(t);
         std::string nm = t.next();
         if (nm == "-") nm = "";
-        if (!t.ok) { emit(s, cmd, "bad-op"); continue; }
+        if (!t.ok) { emit(s, cmd, "bad-op"); return; }
         try {
           unsigned id;
           if (js.custom) {
@@ -391,11 +403,8 @@ int main() {
       else if (cmd == "luafile") {
         // luafile <name> ... luaend : the text of a Lua model, written to a private temporary file
         std::string nm = t.next();
-        std::string path = "/tmp/verif_lua_" + std::to_string((long) getpid()) + "_" + nm + ".lua";
-        std::ofstream f(path);
-        std::string l2;
-        while (std::getline(std::cin, l2)) { if (l2 == "luaend") break; f << l2 << "\n"; }
-        f.close();
+        std::string path = "/tmp/verif_lua_" + std::to_string((long) getpid()) + "_" + s.tag + "_" + nm + ".lua";
+        s.luaOut.reset(new std::ofstream(path));
         s.luafiles[nm] = path;
       }
       else if (cmd == "luaload") {
@@ -415,7 +424,7 @@ int main() {
             s.C.cs.reset(new ConstraintSet(sets[0]));
           }
         } catch (Errors::RBDLError &e) {
-          std::cout << "# luaload error: " << e.what() << "\n";
+          (*s.out) << "# luaload error: " << e.what() << "\n";
         }
       }
       else if (cmd == "luarm") { for (auto &p : s.luafiles) unlink(p.second.c_str()); s.luafiles.clear(); }
@@ -444,6 +453,17 @@ int main() {
     } catch (Errors::RBDLError &e) {
       emit(s, cmd, std::string("err ") + errKind(e.what()));
     }
-  }
+}
+
+int run_stream(std::istream &in, std::ostream &out, const std::string &tag) {
+  State s;
+  s.out = &out; s.in = &in; s.tag = tag;
+  s.fresh("none");
+  std::string line;
+  while (std::getline(in, line)) process_line(s, line);
   return 0;
 }
+
+#ifndef VERIF_NO_MAIN
+int main() { return run_stream(std::cin, std::cout, "m"); }
+#endif
